@@ -13,12 +13,14 @@ CHECK = dict(
               "judged at the beacon-node stub behind the real core/bcast, at Broadcaster.Broadcast and at AggSigDB.Store",
     claim="n=3 and n=4, attester duty, candidate data equal / all distinct / leader differs, optionally one node that also sends a partial "
           "signature made with its own share over other data, or one carrying such a signature on the common data, or floods every peer with one genuine "
-          "partial signature of its own followed by the same signature under every other share index; one or two validators of the cluster attesting in "
+          "partial signature of its own followed by the same signature under every other share index; or sends a GENUINE partial signature of its own share over "
+          "the data another node proposes inside an object whose fields outside the signing root are of its choosing (validator index of the other cluster "
+          "validator / of no validator; other aggregation and committee bits); one or two validators of the cluster attesting in "
           "the slot (separate threshold keys, one ParSigEx set / one Aggregate / one Broadcast call for both); attestations as deneb objects with "
           "validator index or as electra objects WITHOUT validator index (the form peers on v1.3.0-v1.4.1 send: the real broadcaster resolves the "
           "indices from the beacon node's duties by verifying the aggregate): every execution with <=1 deviation (quick) / <=2, <=3 for n=3 (thorough) at any "
-          "step; oracle at every attestation the real broadcaster submits to its beacon node (attributed to the validator it names: validator index, else "
-          "committee bits / committee index), at every Broadcaster.Broadcast and AggSigDB.Store on every node: signature valid under THAT validator's group "
+          "step; oracle at every attestation the real broadcaster submits to its beacon node (attributed to the validator it names the way the beacon node does: before electra committee index "
+          "and position bit, from electra on the validator index, else the committee bits), at every Broadcaster.Broadcast and AggSigDB.Store on every node: signature valid under THAT validator's group "
           "key for the object's own signing root, one signing root per duty and validator across all nodes and time",
     trusted="fakenet (the real p2p.Send and stream handlers run against it), stub scheduler/fetcher/validator client/beacon spec; real BLS and "
             "secp256k1 throughout",
